@@ -146,7 +146,7 @@ Definition C07_fold_agrees_full : Prop := fold_agrees_full.
 (* ---------------------------------------------------------------- non-vacuity *)
 (* what the working tree's source says now about the arithmetic of folding / about non-constant vals *)
 Example C07_repo_arith_now : repo_arith = ArithWrap. Proof. reflexivity. Qed.
-Example C07_repo_nonconst_val_now : repo_rejects_nonconst_val = false. Proof. reflexivity. Qed.
+Example C07_repo_nonconst_val_now : repo_rejects_nonconst_val = true. Proof. reflexivity. Qed.
 
 (* a + (k + 2) with val k = 3, a = 5 at run time: the constant subtree on the right is folded to 5 *)
 Example C07_ex_env : env_ok (ex_env repo_arith) ex_lk. Proof. exact (ex_env_ok repo_arith). Qed.
